@@ -1,5 +1,5 @@
 SPECIFICATION TSpec
-INVARIANTS ImportFunctionalT ValidAcceptedT CorruptRejectedT RejectIsNoopT HeadsKnownT NoPanicT
+INVARIANTS GeneratorOKT ImportFunctionalT ValidAcceptedT CorruptRejectedT RejectIsNoopT HeadsKnownT NoPanicT
   HeadHeaviestT TdAdditiveT HeadTdMonotoneT RestartKeepsHeadT
   CanonIsAncestryT NothingAboveHeadT RetrievableT LookupT
 POSTCONDITION TraceAccepted
